@@ -401,6 +401,8 @@ pub enum Op {
 	PRun { s: usize, inc: bool },
 	/// finish_block
 	F,
+	/// serialize n datums of exactly `len` encoded bytes each
+	Mid { n: usize, len: usize, inc: bool },
 }
 
 impl Op {
@@ -415,6 +417,7 @@ impl Op {
 			Op::PBig { s, inc } => format!("PBig({s},{})", k(inc)),
 			Op::PRun { s, inc } => format!("PRun({s},{})", k(inc)),
 			Op::F => "F".into(),
+			Op::Mid { n, len, inc } => format!("Mid({n}x{len},{})", k(inc)),
 		}
 	}
 }
@@ -509,6 +512,13 @@ pub fn plan(spec: &FileSpec) -> Option<(Vec<Step>, Vec<Val>)> {
 				steps.push(Step::Push(vs));
 			}
 			Op::F => steps.push(Step::Finish),
+			Op::Mid { n, len, inc } => {
+				for i in 0..*n {
+					let v = big_val(spec.sk, *len, *inc, seed * 31 + i as u64)?;
+					expected.push(v.clone());
+					steps.push(Step::Ser(v));
+				}
+			}
 		}
 	}
 	Some((steps, expected))
